@@ -337,7 +337,15 @@ impl SecParty {
             data.serialized_payload = Some(Bytes::from(encoded));
           }
           let _ = endianness;
-          data.create_submessage(flags)
+          Submessage {
+            header: SubmessageHeader {
+              kind: SubmessageKind::DATA,
+              flags: flags.bits(),
+              content_length: data.len_serialized() as u16,
+            },
+            body: SubmessageBody::Writer(WriterSubmessage::Data(data, flags)),
+            original_bytes: None,
+          }
         }
         (Some(w), SubmessageBody::Writer(WriterSubmessage::DataFrag(mut frag, flags))) => {
           let (encoded, extra) = self
@@ -349,7 +357,15 @@ impl SecParty {
             return Err("encode_serialized_payload returned inline qos".into());
           }
           frag.serialized_payload = Bytes::from(encoded);
-          frag.create_submessage(flags)
+          Submessage {
+            header: SubmessageHeader {
+              kind: SubmessageKind::DATA_FRAG,
+              flags: flags.bits(),
+              content_length: frag.len_serialized() as u16,
+            },
+            body: SubmessageBody::Writer(WriterSubmessage::DataFrag(frag, flags)),
+            original_bytes: None,
+          }
         }
         _ => sub,
       };
